@@ -1,7 +1,7 @@
 ------------------------------ MODULE Gen_C06 ------------------------------
 (* Workload for C06: signed transactions of all kinds / shapes.             *)
 EXTENDS GenTx
-NRandom == IF Thorough THEN 20000 ELSE 250
+NRandom == IF Thorough THEN 20000 ELSE 500
 O1 == NPresence
 O2 == O1 + NBoundary
 O3 == O2 + NData
